@@ -448,5 +448,13 @@ def rule_r7(ctx) -> RuleResult:
     return rr
 
 
+def rule_r8(ctx) -> RuleResult:
+    from ..core.report import shared
+    from . import c10
+
+    return shared(c10.rule_r10(ctx), "C15.R8", "no cookie-bearing text is stored into an object owned by the page-lookup memo (shared with C10.R10)",
+                  "the stored text carries cookie characters of the page on which it was produced", min_instances=5)
+
+
 def run(ctx) -> list:
-    return [rule_r1(ctx), rule_r2(ctx), rule_r3(ctx), rule_r4(ctx), rule_r5(ctx), rule_r6(ctx), rule_r7(ctx)]
+    return [rule_r1(ctx), rule_r2(ctx), rule_r3(ctx), rule_r4(ctx), rule_r5(ctx), rule_r6(ctx), rule_r7(ctx), rule_r8(ctx)]
